@@ -300,7 +300,12 @@ class Check(PropertyCheck):
                   "route_conn_matches_request (spec of the connection handed out, reuse included), transparent_dest_ignores_host "
                   "(Host vs destination), scheme_change_uses_other_connection; both confinement theorems also for histories in which "
                   "upstream_auth is changed at runtime between any two events (creds_confined_under_option_changes[_from_start], "
-                  "route_creds_confined_under_option_changes); every one of these histories may contain server disconnects (`drop` events: "
+                  "route_creds_confined_under_option_changes); (round 4) route_refines_dest / route_refines_dest_from_start: the routing "
+                  "model REFINES the Dest-level model over every history (same kinds; same writes read through the predicted "
+                  "connection parameters, except CONNECTs the routing model saves by reusing a connection), hence "
+                  "route_creds_allowed_via_refinement; transparent_histories_ignore_hosts (Host vs destination over whole "
+                  "histories); parse_upstream_auth transcribed with C20_B64's base64/UTF-8 (validSpec_iff, upstream_value_decodes: "
+                  "what the proxy receives decodes to exactly the configured credential); every one of these histories may contain server disconnects (`drop` events: "
                   "the upstream side closes inside a tunnel or between tunnels and is re-established with a new CONNECT), and "
                   "tunneled_for_the_whole_life_of_the_client_connection / server_disconnect_keeps_tunnel state that `tunneled` "
                   "and the tunnel phase belong to the CLIENT connection and survive them. Both models are tied end to end through the full layer "
@@ -322,8 +327,8 @@ class Check(PropertyCheck):
                   "tunnels carry plain HTTP/1.1: CONNECT to :80 and :443 followed by plain requests), https upstream proxies / "
                   "https reverse targets, HTTP/2, request bodies, ALPN (always None here). The Dest-level model emits a CONNECT for every "
                   "https request (fresh origin per https request); repeated https requests to one origin (TLS connection reuse) are "
-                  "compared with the routing model only. The two Lean models are each tied to the code; they are not proved "
-                  "equivalent to each other. UpstreamAuth.tunneled is a "
+                  "compared with the routing model only. The two Lean models are each tied to the code and related by the refinement "
+                  "theorem route_refines_dest. UpstreamAuth.tunneled is a "
                   "WeakSet: the model never removes entries and assumes client ids are not reused. With HTTP/2 between client and "
                   "mitmproxy a CONNECT stream marks the whole client connection as tunnelled, so later plain-http streams of that "
                   "connection get no credential (fails closed)."
